@@ -338,8 +338,13 @@ def generate(rs, mode, tier, index):
     for c in clients:
         sched += [c["id"]] * len(c["ops"])
     sched = rng.shuffle(sched)
+    # observation schedule: a battery after every step freezes anything the library computes
+    # lazily on first access; in 40 % of the runs most steps are therefore *not* observed
+    # (the final state always is)
+    observe = "every" if rng.coin(0.6) else "sparse"
+    obs = [True] * len(sched) if observe == "every" else [rng.coin(0.25) for _ in sched]
     return {"check": ID, "run_seed": rs, "mode": mode, "pool": pool, "meta": meta,
-            "clients": clients, "schedule": sched}
+            "clients": clients, "schedule": sched, "observe": obs}
 
 
 # ----------------------------------------------------------------------------
@@ -404,7 +409,12 @@ def execute(plan):
                             f"{name} {where}: {why} (estimator vs. spec model)",
                             query=name, where=where, **detail)
 
-    def battery(cs, where):
+    obs_now = [True]
+
+    def battery(cs, where, force=False):
+        if not (force or obs_now[0]):
+            bump("steps_not_observed")
+            return
         est, M = cs.est, cs.model
         kind = meta["kind"]
         sigs = [("sig", None), ("sig1", None)]
@@ -495,6 +505,8 @@ def execute(plan):
             op = cs.client["ops"][cs.pos]
             cs.pos += 1
             steps += 1
+            ob = plan.get("observe")
+            obs_now[0] = True if ob is None or step >= len(ob) else bool(ob[step])
             if "px" in op:
                 ambient_perturb(op["k"])
                 bump("fault:rng_perturb")
@@ -540,7 +552,8 @@ def execute(plan):
                     trigrams.add(tuple(o["m"] for o in cs.muts[-3:]))
                 where = f"after {op['m']} (step {step}, {len(cs.muts)} registrations)"
                 if op["m"] in ("register_background_adaptation", "register_system_adaptation"):
-                    unity_after(cs, op, where)
+                    if obs_now[0]:
+                        unity_after(cs, op, where)
                     bump("reach:adaptation_add" if op["add"] else "reach:adaptation_replace")
                 battery(cs, where)
                 continue
@@ -606,6 +619,9 @@ def execute(plan):
                     bump("fault_not_fired:" + kind)
             check_pool(f"query {q['q']}")
             battery(cs, f"after {'faulted ' if fault else ''}{q['q']} (step {step})")
+        for cs in states.values():
+            if cs.alive:
+                battery(cs, "at the end of the history", force=True)
     except Violation as v:
         violation = v.as_dict()
 
@@ -677,6 +693,10 @@ def candidates(plan):
                 c2 = dict(c)
                 c2["ops"] = c["ops"][:oi] + [o2] + c["ops"][oi + 1:]
                 yield c14._rebuild(plan, clients[:ci] + [c2] + clients[ci + 1:])
+    if plan.get("observe") and not all(plan["observe"]):
+        p = dict(plan)
+        p["observe"] = [True] * len(plan["observe"])
+        yield p
     for ci, c in enumerate(clients):
         for key in ("w", "K", "baseline", "sources"):
             if c["ctor"].get(key):
